@@ -416,6 +416,69 @@ Section Mp.
     pose proof (compose_nonempty n x Hw Hc). specialize (IH r eq_refl). rewrite app_length. cbn [length]. lia.
   Qed.
 
+  (* the next hop carried in an MP_REACH_NLRI attribute, in each of the forms a family admits *)
+  Lemma c01_mp_next_hop_proof a fam k nhv enc :
+    find (fun s => as_code s =? 14) (c_attrs c) = Some a ->
+    fst fam < 65536 -> snd fam < 256 -> fam_of fam = Some k -> nh_fits k nhv = true ->
+    as_value a = mp_reach_value fam (nh_octets nhv) enc ->
+    a_mp_next_hop b u = Ok (Some (fam, nhv)).
+  Proof.
+    intros Hfind Hf1 Hf2 Hk Hfit Hv.
+    assert (Ha : wf_spec a = true).
+    { destruct (wf_parts cfg c Hwf) as (_ & _ & Hat). rewrite forallb_forall in Hat. apply Hat.
+      apply find_some in Hfind. tauto. }
+    unfold a_mp_next_hop. rewrite a_unchecked_is. rewrite (find_unchecked_map _ _ _ Hfind).
+    rewrite tlv_value_enc by assumption. cbn [bind]. rewrite Hv. unfold mp_reach_value.
+    rewrite mp_family_value by assumption. cbn [bind]. unfold nh_parse. cbn [app parse_u8 p_rest p_pos bind]. rewrite Hk.
+    destruct k, nhv; cbn [nh_fits] in Hfit; try discriminate; cbn [nh_octets];
+      repeat match goal with
+             | H : (_ || _) = true |- _ => apply orb_true_iff in H as [H|H]
+             | H : (_ && _) = true |- _ => apply andb_true_iff in H as [? ?]
+             | H : Nat.eqb _ _ = true |- _ => apply Nat.eqb_eq in H
+             end;
+      rewrite ?app_length;
+      repeat match goal with H : length _ = _ |- _ => rewrite H end;
+      cbn [length];
+      repeat match goal with |- context [N.of_nat ?n =? ?m] => let r := eval vm_compute in (N.of_nat n =? m) in change (N.of_nat n =? m) with r end;
+      cbn iota;
+      rewrite <- ?app_assoc;
+      repeat (rewrite take_app' by (symmetry; assumption); cbn [bind]);
+      reflexivity.
+  Qed.
+
+  Lemma fam_eq_refl f : fam_eq f f = true.
+  Proof. unfold fam_eq. now rewrite !N.eqb_refl. Qed.
+
+  (* find_next_hop: the MP_REACH next hop for the family the attribute is for (IPv4 unicast included), an error for any other
+     family except IPv4 unicast, which then falls back to the NEXT_HOP attribute *)
+  Lemma c01_find_next_hop_proof a fam k nhv enc :
+    find (fun s => as_code s =? 14) (c_attrs c) = Some a ->
+    fst fam < 65536 -> snd fam < 256 -> fam_of fam = Some k -> nh_fits k nhv = true ->
+    as_value a = mp_reach_value fam (nh_octets nhv) enc ->
+    a_find_next_hop b u fam = Ok (FMp nhv) /\
+    (forall probe, fam_eq fam probe = false -> fam_eq probe (1, 1) = false -> a_find_next_hop b u probe = Err) /\
+    (fam_eq fam (1, 1) = false ->
+     a_find_next_hop b u (1, 1) = match a_conventional_next_hop b u with Ok (Some x) => Ok (FConv x) | Panic => Panic | _ => Err end).
+  Proof.
+    intros Hfind Hf1 Hf2 Hk Hfit Hv. pose proof (c01_mp_next_hop_proof a fam k nhv enc Hfind Hf1 Hf2 Hk Hfit Hv) as Hm.
+    unfold a_find_next_hop. rewrite Hm. split; [|split].
+    - rewrite fam_eq_refl. destruct (fam_eq fam (1, 1)); reflexivity.
+    - intros probe H1 H2. rewrite H2, H1. reflexivity.
+    - intros H1. rewrite fam_eq_refl, H1. reflexivity.
+  Qed.
+
+  Lemma c01_find_next_hop_conventional_proof :
+    find (fun s => as_code s =? 14) (c_attrs c) = None ->
+    a_mp_next_hop b u = Ok None /\
+    a_find_next_hop b u (1, 1) = match a_conventional_next_hop b u with Ok (Some x) => Ok (FConv x) | Panic => Panic | _ => Err end /\
+    (forall probe, fam_eq probe (1, 1) = false -> a_find_next_hop b u probe = Err).
+  Proof.
+    intros Hnone.
+    assert (Hm : a_mp_next_hop b u = Ok None).
+    { unfold a_mp_next_hop. rewrite a_unchecked_is. now rewrite (find_none_map _ _ Hnone). }
+    unfold a_find_next_hop. rewrite Hm. split; [reflexivity|]. split; [reflexivity|]. intros probe H. now rewrite H.
+  Qed.
+
   Lemma c01_mp_unreach_proof a fam k l enc :
     find (fun s => as_code s =? 15) (c_attrs c) = Some a ->
     fst fam < 65536 -> snd fam < 256 -> fam_of fam = Some k ->
